@@ -844,6 +844,13 @@ type fsmTxnCommitIndexTracker struct {
 	// invalidate the list on /foo (as it adds /bar in). Luckily, we can use
 	// paginated lists to see if bar is contained in foo/'s tree already.
 	indexModifiedMap map[uint64]map[string]struct{}
+
+	// completeFromIndex is the lowest log index from which indexModifiedMap
+	// is known to hold every write. Entries below it were either trimmed
+	// (clearOldEntries) or never seen by this process (the FSM was reopened
+	// or restored from a snapshot), so the absence of a modification below
+	// this index proves nothing and verification must not be skipped.
+	completeFromIndex uint64
 }
 
 func FsmTxnCommitIndexTracker() *fsmTxnCommitIndexTracker {
@@ -883,6 +890,19 @@ func (t *fsmTxnCommitIndexTracker) clearOldEntries(lowestActiveIndex uint64) {
 	maps.DeleteFunc(t.indexModifiedMap, func(key uint64, _ map[string]struct{}) bool {
 		return key < lowestActiveIndex
 	})
+
+	t.completeFromIndex = max(t.completeFromIndex, lowestActiveIndex)
+}
+
+// forgetModifications drops all tracked writes; called when the underlying
+// database was (re)opened at the given applied index, as nothing is known
+// about which entries the logs up to and including that index modified.
+func (t *fsmTxnCommitIndexTracker) forgetModifications(appliedIndex uint64) {
+	t.l.Lock()
+	defer t.l.Unlock()
+
+	clear(t.indexModifiedMap)
+	t.completeFromIndex = appliedIndex + 1
 }
 
 func (t *fsmTxnCommitIndexTracker) trackTransaction(index uint64) {
@@ -926,6 +946,11 @@ func (t *fsmTxnCommitIndexTracker) hasModifiedEntry(minIndex uint64, maxIndex ui
 	t.l.Lock()
 	defer t.l.Unlock()
 
+	if minIndex+1 < t.completeFromIndex {
+		// We do not know all writes in (minIndex, maxIndex].
+		return t.completeFromIndex - 1, true
+	}
+
 	for index, modifications := range t.indexModifiedMap {
 		if index <= minIndex {
 			continue
@@ -949,6 +974,11 @@ func (t *fsmTxnCommitIndexTracker) hasModifiedEntry(minIndex uint64, maxIndex ui
 func (t *fsmTxnCommitIndexTracker) hasModifiedListEntry(minIndex uint64, maxIndex uint64, key string) (uint64, bool) {
 	t.l.Lock()
 	defer t.l.Unlock()
+
+	if minIndex+1 < t.completeFromIndex {
+		// We do not know all writes in (minIndex, maxIndex].
+		return t.completeFromIndex - 1, true
+	}
 
 	normKey := key
 	if len(key) > 0 && key[len(key)-1] != '/' {
